@@ -7,12 +7,16 @@ def jobs(tier):
     from vlib.runner import Job
     J=_blk().blockin_jobs(tier)
     cfgs=[('stereo-coupled',2,1,'0,0',1,0,1),('three-2sub',3,2,'0,0,1',1,0,1)] if tier=='quick' else [('stereo-coupled',2,1,'0,0',1,0,1),('three-2sub',3,2,'0,0,1',1,0,1),('stereo-plain',2,1,'0,0',0,0,1),('five-2sub',5,2,'0,0,0,0,1',1,2,3),('mono',1,1,'0',0,0,0)]
+    for wc in (0,1):
+      J.append(Job('K-floor0-inv2-W%d'%wc,'C11/k_floor0_inv2.c',defs=['-DWC=%d'%wc],cuts={'floor0.c':['floor0_map_lazy_init']},unwind=36,unwindset=[('verif_memset',None,40)],object_bits=10,checks=['leak'],witnesses=['unused floor on a block size never rendered before','curve rendered'],
+          functions=['floor0_inverse2','floor0_look','floor0_free_look'],models=['floor0_map_lazy_init cut: builds the map for the current block size when missing (float bark arithmetic outside)','vorbis_lsp_to_curve cut: records arguments'],
+          bounds='block sizes (32,64), current block flag %d, every subset of block sizes rendered before, used/unused floor'%wc,weight=1))
     for nm,ch,sub,mux,cp,m,a in cfgs:
         J.append(Job('K-map-'+nm,'C11/k_map.c',defs=['-DCH=%d'%ch,'-DSUBMAPS=%d'%sub,'-DMUXLIST=%s'%mux,'-DCOUPLED=%d'%cp,'-DCMAG=%d'%m,'-DCANG=%d'%a],unwind=132,object_bits=10,
             witnesses=['decoded']+(['coupled pair with one unused floor'] if cp else [])+(['two submaps'] if sub==2 else []),
             functions=['mapping0_inverse'],models=['floor/residue/MDCT back ends cut to argument-checking ghost stubs (M-dsp)'],
             bounds='layout %s: %d channels, %d submaps (%s), coupling %s; block size 64; work vectors start with arbitrary bits; any subset of unused floors'%(nm,ch,sub,mux,'(%d,%d)'%(m,a) if cp else 'none'),weight=2))
     return J
-CLAIM={'text':'Inductive-step model checking of the only cross-packet state of the decoder (vorbis_synthesis_blockin): from EVERY prior decoder state (i.e. whatever earlier packets were lost, altered, duplicated or rejected) the samples exposed by a block occupy exactly the overlap span of this block with its predecessor; cells outside that span and outside the stored second half are untouched; copy regions equal the block verbatim; a sequence break resets the sample counter and granule tracking; a rejected call leaves the state bit-identical; and the mapping stage (mapping0_inverse) hands the residue decoder all-zero work vectors whatever the scratch memory held.',
+CLAIM={'text':'Floor 0 curve stage: an unused floor clears its whole half block regardless of which block sizes were rendered by earlier packets (K-floor0-inv2: no hidden dependence on older packets through the lazily built lookup). Inductive-step model checking of the only cross-packet state of the decoder (vorbis_synthesis_blockin): from EVERY prior decoder state (i.e. whatever earlier packets were lost, altered, duplicated or rejected) the samples exposed by a block occupy exactly the overlap span of this block with its predecessor; cells outside that span and outside the stored second half are untouched; copy regions equal the block verbatim; a sequence break resets the sample counter and granule tracking; a rejected call leaves the state bit-identical; and the mapping stage (mapping0_inverse) hands the residue decoder all-zero work vectors whatever the scratch memory held.',
  'note':'Trusted: floor/residue/MDCT back ends as ghost stubs; K-map decides the per-packet zeroing of the work vectors and the channel/submap plumbing of mapping0_inverse from arbitrary scratch contents (the mutable look structures of floor/residue are not covered); float VALUES of the windowed overlap are outside the claim (position/frame only) - so "bit-identical from the second packet on" is decided at the level of which accumulator cells a block may read and write, not by executing the MDCT. 1 channel (loop uniform), block sizes listed per job, positions < 2^40.',
  'design_ref':'DESIGN.md section 3 C11 (ni-blockin frame formulation, ni-fail)'}
